@@ -14,12 +14,13 @@ Inductive cg_exit :=
 | ExNaN           (* alpha not finite: step and value set to NaN *)
 | ExBoundary      (* ||z + alpha d|| >= radius: boundary point z + tb d *)
 | ExInterior      (* residual test or iteration cap *)
+| ExZeroGrad      (* r_sq == 0 before the loop: zero step, value 0 (fix 756d57214) *)
 | ExFuel.         (* model artefact: never returned (Theorem C11_terminates) *)
 
 Definition cg_exit_eqb (a b : cg_exit) : bool :=
   match a, b with
   | ExNegCurvA, ExNegCurvA | ExNegCurvB, ExNegCurvB | ExNaN, ExNaN
-  | ExBoundary, ExBoundary | ExInterior, ExInterior | ExFuel, ExFuel => true
+  | ExBoundary, ExBoundary | ExInterior, ExInterior | ExFuel, ExFuel | ExZeroGrad, ExZeroGrad => true
   | _, _ => false
   end.
 
@@ -119,12 +120,20 @@ Section Steihaug.
     (* the loop leaves at the latest when i = max_iter + 1 *)
     Definition cg_fuel : nat := S (S (Z.to_nat (max_iter P))).
 
-    Definition cg_solve : cg_result := cg_loop cg_fuel (cg_tolerance P g) 0%Z cg_init.
+    (* if (r_sq == 0) { s.setZero(); return 0; }  -- before the tolerance and the loop *)
+    Definition cg_solve : cg_result :=
+      if st_rsq cg_init =? n0 then
+        {| res_step := map (fun _ => n0) g; res_val := n0; res_exit := ExZeroGrad; res_iter := 0%Z |}
+      else cg_loop cg_fuel (cg_tolerance P g) 0%Z cg_init.
 
     (* number of hess_prod calls made by solve(): one per loop pass + the eval() calls of the exit *)
     Definition cg_hess_calls (r : cg_result) : Z :=
-      (res_iter r + 1 +
-       match res_exit r with ExNegCurvA | ExNegCurvB => 2 | ExNaN => 0 | ExFuel => 0 | _ => 1 end)%Z.
+      match res_exit r with
+      | ExZeroGrad => 0%Z
+      | ExNegCurvA | ExNegCurvB => (res_iter r + 1 + 2)%Z
+      | ExNaN | ExFuel => (res_iter r + 1)%Z
+      | ExBoundary | ExInterior => (res_iter r + 1 + 1)%Z
+      end.
   End Solve.
 
   (* dense symmetric operator: rows of the matrix; (B p)(i) = row_i . p *)
